@@ -60,8 +60,10 @@ def run_calls(arg):
             lines[int(m.group(1))] = (m.group(2), int(m.group(3)), m.group(4) == "#t", int(m.group(5)), int(m.group(6)), int(m.group(7)), m.group(8))
     import shutil
     shutil.rmtree(d, ignore_errors=True)
+    nonterm = re.findall(r"^#NONTERM (\S+) (.*)$", r.out, re.M)
     missing = any(it[0] not in lines for it in items)
-    return jobno, items, lines, r.rc, r.timed_out, asan_sites(r.out), r.out[-(60000 if missing else 1500):], time.time() - t0
+    sites = asan_sites(r.out) + [("nonterm", nm, args) for nm, args in nonterm[:6]]
+    return jobno, items, lines, r.rc, r.timed_out, sites, r.out[-(60000 if missing else 1500):], time.time() - t0
 
 
 # ---------------------------------------------------------------- reader texts
@@ -372,6 +374,13 @@ def main(tier):
                                   open(DRIVER).read() + "(run 0 '%s %d)\n" % (nm, ar))
             for kind, fn, loc in sorted(set(sites)):
                 key = (kind, fn, loc)
+                if kind == "nonterm":
+                    if ("nonterm", fn) not in by_site:
+                        by_site[("nonterm", fn)] = True
+                        chk.violation({"op": "nonterm:" + fn, "name": fn, "args": loc},
+                                      "(%s %s): the call exhausts its budget (300000 VM instructions / 40 ms CPU) although every argument is small: it does not terminate" % (fn, loc.strip("()")),
+                                      "(import (scheme base) (scheme char) (scheme inexact) (scheme complex) (scheme write))\n(write (%s %s))\n;; expected: a value or an error, promptly\n" % (fn, loc.strip("()")))
+                    continue
                 if key not in by_site:
                     by_site[key] = [it[1] for it in its]
                     chk.violation({"op": "asan:" + fn, "kind": kind, "function": fn, "site": loc, "procedures": [it[1] for it in its]},
